@@ -200,6 +200,12 @@ def noisy(draw, d, level=None, top_display=False):
 
 # ------------------------------------------------------------------------------ edit scripts
 
+SIBLING_CLASS = {
+    "Point": ("FPoint", {}), "FPoint": ("Point", {}),
+    "NT": ("TNT", {"a": "p", "b": "q"}), "TNT": ("NT", {"p": "a", "q": "b"}),
+    "APoint": ("AFrozen", {"a": "k", "b": "v"}), "AFrozen": ("APoint", {"k": "a", "v": "b"}),
+}
+
 
 @st.composite
 def mutate(draw, d, tier="quick", depth=0):
@@ -229,6 +235,10 @@ def mutate(draw, d, tier="quick", depth=0):
                 elif e == 5 and xs:
                     i = draw(st.integers(0, len(xs) - 1))
                     xs[i] = draw(leafs)
+            if xs and draw(st.integers(0, 5)) == 0:
+                # repetition: the common prefix and suffix of old and new overlap ([a, b] vs [a, b, a, b])
+                j = draw(st.sampled_from([len(xs), len(xs), draw(st.integers(1, len(xs)))]))
+                xs = xs + xs[:j] if draw(st.sampled_from([True, True, False])) else xs[:j]
             return [k, xs]
         if choice == 6:
             return ["tuple" if k == "list" else "list", xs]
@@ -280,8 +290,11 @@ def mutate(draw, d, tier="quick", depth=0):
                         fields.sort(key=lambda f: order.index(f[0]))
             return ["call", name, fields]
         if choice == 7:
-            # another class with the same first field
             return draw(leafs)
+        if choice == 8 and d[1] in SIBLING_CLASS:
+            # a value of another class of the same kind (dataclass / attrs / namedtuple) with the same content
+            other, rename = SIBLING_CLASS[d[1]]
+            return ["call", other, [[rename.get(f, f), v] for f, v in d[2] if rename.get(f, f) in gv.CALL_FIELDS[other]]]
         return d
     if k in ("set", "frozenset"):
         xs = list(d[1])
